@@ -81,9 +81,7 @@ def _unsup(name):
 
 while_symbolic = _unsup('while with symbolic condition (needs an invariant)')
 seq_concat = _unsup('sequence concatenation')
-seq_contains = _unsup('sequence membership')
 seq_slice = _unsup('sequence slice')
-seq_index = _unsup('sequence index')
 seq_sum = _unsup('sum over sequence')
 seq_enumerate = _unsup('enumerate over sequence')
 seq_reversed = _unsup('reversed sequence')
@@ -325,3 +323,132 @@ def fold_loop(I, st, pipe, env):
     results = I.pipes.fold(pipe, accs, init, acc_syms, step, pred)
     for n in accs:
         env.vars[n] = results[n]
+
+
+# ----------------------------------------------------------------------------------------------------- indexing, membership
+def seq_index(I, pipe, key):
+    """pipe[key] for a base sequence: IndexError outside [-len, len); the element at a symbolic index is the source element
+    at that index (fields are functions of the index, so equal indices give equal fields)."""
+    from .interp import zint, simp
+    if not pipe.is_base():
+        raise Unsupported('index into a filtered / sorted sequence')
+    n = I.pipes.observable(pipe, 'len')
+    k = zint(key)
+    which = I.fork([simp(z3.And(k >= 0, k < n)), simp(z3.And(k < 0, k >= -n)), simp(z3.Or(k >= n, k < -n))])
+    if which == 2:
+        I.raise_py('IndexError')
+    idx = simp(k) if which == 0 else simp(n + k)
+    return elem_at(I, pipe.src, idx)
+
+
+def elem_at(I, src, idx):
+    from .interp import zint, simp, zbool
+    idx_t = zint(idx)
+    key = '@' + idx_t.sexpr()
+    if key in src._elems:
+        return src._elems[key]
+    # an index that is provably one already used denotes the same element (object identity)
+    for k2, (t2, e2) in getattr(src, '_indexed', {}).items():
+        s = z3.Solver()
+        s.set('timeout', 1000)
+        for c in I.pc:
+            s.add(c)
+        s.add(idx_t != t2)
+        if s.check() == z3.unsat:
+            src._elems[key] = e2
+            return e2
+    for k2, (t2, e2) in getattr(src, '_indexed', {}).items():
+        s = z3.Solver()
+        s.set('timeout', 1000)
+        for c in I.pc:
+            s.add(c)
+        s.add(idx_t == t2)
+        if s.check() != z3.unsat:
+            raise Unsupported('two symbolic indices into one sequence that may or may not coincide')
+    e = src.elem_builder(key, idx_t)
+    src._elems[key] = e
+    if not hasattr(src, '_indexed'):
+        src._indexed = {}
+    if src.inv is not None:
+        I.assume(I.truth(src.inv(e)))
+    if src.pair_inv is not None:
+        for k2, (t2, e2) in src._indexed.items():
+            I.assume(z3.Implies(idx_t < t2, zbool(I.truth(src.pair_inv(e, e2)))))
+            I.assume(z3.Implies(t2 < idx_t, zbool(I.truth(src.pair_inv(e2, e)))))
+    src._indexed[key] = (idx_t, e)
+    return e
+
+
+def seq_contains(I, pipe, x):
+    """x in pipe: an uninterpreted predicate of the value x per canonical pipe (two membership tests on the same sequence with
+    equal values agree)"""
+    from .values import to_z3_string
+    from .interp import zint
+    cid = I.pipes.canon_id(pipe)
+    if isinstance(x, (str, SStr)):
+        F = z3.Function(f'in({pipe.src.name}~{cid})', z3.StringSort(), z3.BoolSort())
+        return F(to_z3_string(x))
+    if isinstance(x, int) or isinstance(x, z3.ArithRef):
+        F = z3.Function(f'in({pipe.src.name}~{cid})', z3.IntSort(), z3.BoolSort())
+        return F(zint(x))
+    raise Unsupported('membership of a non-scalar in a symbolic sequence')
+
+
+def xlist_index(I, xl, key):
+    from .interp import zint, simp
+    if isinstance(key, int) and key < 0 and len(xl.items) >= -key:
+        return xl.items[key]
+    if xl.base is None:
+        if isinstance(key, int):
+            try:
+                return xl.items[key]
+            except IndexError:
+                I.raise_py('IndexError')
+        return I.get_item(list(xl.items), key)
+    n = I.pipes.observable(xl.base, 'len')
+    k = zint(key)
+    m = len(xl.items)
+    conds = [simp(z3.And(k >= 0, k < n))] + [simp(k == n + j) for j in range(m)] + [simp(k == j - m) for j in range(m)] \
+        + [simp(z3.Or(k >= n + m, k < -m))]
+    which = I.fork(conds)
+    if which == 0:
+        return elem_at(I, xl.base.src, simp(k))
+    if which <= m:
+        return xl.items[which - 1]
+    if which <= 2 * m:
+        return xl.items[which - 1 - m]
+    # beyond the appended items on either side: a negative index into the base part or out of range
+    if I.branch(simp(z3.And(k < -m, k >= -(n + m)))):
+        return elem_at(I, xl.base.src, simp(n + m + k))
+    I.raise_py('IndexError')
+
+
+def xlist_equals(I, a, b):
+    from .values import XList
+    from .interp import _and
+    def norm(v):
+        if isinstance(v, XList):
+            return v.base, list(v.items)
+        if isinstance(v, (list, tuple)):
+            return None, list(v)
+        from .seq import SSeq
+        if isinstance(v, SSeq):
+            return v, []
+        return 'other', []
+    ba, ia = norm(a)
+    bb, ib = norm(b)
+    if ba == 'other' or bb == 'other':
+        return False
+    if len(ia) != len(ib):
+        # a base sequence could make up for the difference only if it is empty / non-empty accordingly: not modelled
+        if ba is None and bb is None:
+            return False
+        raise Unsupported('comparison of symbolic lists with different numbers of appended items')
+    if (ba is None) != (bb is None):
+        raise Unsupported('comparison of a symbolic list with a concrete list')
+    acc = True
+    if ba is not None and ba is not bb:
+        acc = seq_equals(I, ba, bb)
+    for x, y in zip(ia, ib):
+        acc = _and(acc, I.truth(I.equals(x, y)) if not (hasattr(x, 'fields') and hasattr(y, 'fields')) else I.identical(x, y))
+    return acc
